@@ -27,7 +27,7 @@ COMPONENTS = {'real': ['yldprolog.engine assert_fact/Answer/match_dynamic/assert
               'stub': ['scheduler holding the open unifications and suspended uses'],
               'oracle': ['copy-semantics model: ASSERT stores resolve(term, current substitution) with remaining variables made fact-local; every USE renames the fact apart']}
 REQUIRED_PROBES = ('store_prefilled_with_many_facts', 'fault_assert_overflow', 'fault_use_aborted', 'independent_use_stepped_while_others_suspended', 'assert_with_bound_variable', 'assert_with_unbound_variable', 'assert_bound_inside_structure', 'use_answer', 'use_while_other_use_suspended',
-                   'use_after_binding_changed', 'nonground_fact_answered', 'route_fact', 'route_query', 'route_wrapv', 'route_inline')
+                   'use_after_binding_changed', 'nonground_fact_answered', 'route_fact', 'route_query', 'route_wrapv', 'route_inline', 'equal_constants_of_different_types_stored')
 
 _WRAP = None
 WRAP_SRC = '''
@@ -140,7 +140,15 @@ def gen(seed, tier):
         else:
             ops.append(['STEP'])
     # size-dependent paths: p/1 and p/2 may already hold many (ground, unrelated) facts when the history starts
-    return {'nv': nv, 'ops': ops, 'prefill': rng.choice((0, 0, 0, 0, 0, 0, 33, 40, 70))}
+    plan = {'nv': nv, 'ops': ops, 'prefill': rng.choice((0, 0, 0, 0, 0, 0, 33, 40, 70))}
+    # constants that are equal to each other but are different Python values (1, True, 1.0; 0, False, 0.0; '' ...): stored
+    # in kc/1 before the history (drawn after everything else, so the histories of earlier versions are unchanged) and
+    # read back after it - "holds the value its argument had" includes which of the equal values it was
+    if rng.random() < 0.35:
+        fam = rng.choice(([1, True, 1.0], [0, False, 0.0], [2, 2.0, '2'], [1, True, 1.0, '1', 'True'], [0, 0.0, False, '', None]))
+        ks = [rng.choice(fam) for _ in range(rng.randrange(2, 7))]
+        plan['kconsts'] = [[rng.choice(('fact', 'query', 'wrapv')), k_, rng.random() < 0.2] for k_ in ks]
+    return plan
 
 
 def show_op(op):
@@ -185,6 +193,16 @@ def execute(plan):
             meta[rec_[0]] = {'bound': False, 's': {}, 'vars': []}
     if plan.get('prefill'):
         log.count('store_prefilled_with_many_facts')
+    kwant = []
+    for route_, k_, front_ in plan.get('kconsts', ()):
+        if route_ == 'fact':
+            yp.assert_fact(yp.atom('kc'), [k_], not front_)
+        else:
+            for _ in yp.query(('wv_' if route_ == 'wrapv' else '') + ('asserta' if front_ else 'assertz'), [yp.functor('kc', [k_])]):
+                pass
+        kwant.insert(0, k_) if front_ else kwant.append(k_)
+    if len(set(type(k_) for k_ in kwant)) > 1:
+        log.count('equal_constants_of_different_types_stored')
     s = {}
     stack = []           # frames: dict(kind='unify'|'use', task, s_before, ...)
     indep = []           # independent uses (own variables only): steppable in any order
@@ -481,6 +499,14 @@ def execute(plan):
                 if pool.observe_all() != pool.model_all(s):
                     log.violation('use-binding', {'use': iu['show'], 'note': 'an independent use changed the bindings of the asserting context'})
                     break
+        if kwant and not log.violations:
+            x_ = yp.variable()
+            got_ = [x_.get_value() for _ in yp.query('kc', [x_])]
+            sig = lambda vs: [[type(v).__name__, repr(v)] for v in vs]
+            log.ev('kconsts', sig(got_))
+            if sig(got_) != sig(kwant):
+                log.violation('stored-constant-changed', {'asserted': sig(kwant), 'stored': sig(got_),
+                                                          'note': 'a constant stored in a fact reads back as a different (if equal) Python value'})
     except TM.Cyclic:
         log.count('ended_unspecified_cyclic')
         log.ev('cyclic-end')
